@@ -2,7 +2,8 @@
 """A fresh interpreter that performs a list of AmpGen read / convert calls in order and prints their results as JSON.
 usage: ampworker.py '<json: {"calls": [[kind, path], ...], "cache": bool}>'
 kinds: cpp / py (string-returning conversion), cpp_print / py_print (conversion printing to stdout),
-       read:AmplitudeChain / read:GooFitChain / read:GooFitPyChain (summary of what was read)"""
+       read:AmplitudeChain / read:GooFitChain / read:GooFitPyChain (summary of what was read),
+       emit:GooFitChain / emit:GooFitPyChain (output step for the file that class read last; the path is ignored)"""
 import contextlib
 import io
 import json
@@ -34,8 +35,17 @@ def main():
     from decaylanguage.modeling.goofit import GooFitChain, GooFitPyChain
 
     out = []
+    last_read = {}
     for kind, path in req["calls"]:
         try:
+            if kind.startswith("emit:"):
+                # the output step of a conversion done by hand (as the notebooks do): the introduction, the parameters and the
+                # amplitude blocks of the file this reader class read last
+                cls = {"GooFitChain": GooFitChain, "GooFitPyChain": GooFitPyChain}[kind[5:]]
+                lines, states = last_read[kind[5:]]
+                text = cls.make_intro(states) + "\n" + cls.make_pars() + "\n" + "\n".join(l.to_goofit(states[1:]) for l in lines)
+                out.append(["ok", [ln for ln in text.split("\n") if ln.strip()]])
+                continue
             if kind == "cpp":
                 out.append(["ok", ampgen2goofit(path, ret_output=True)])
             elif kind == "py":
@@ -51,6 +61,7 @@ def main():
                 if cls is AmplitudeChain:
                     out.append(["ok", summary(r[0], r[3], r[1], r[2])])
                 else:
+                    last_read[kind[5:]] = (r[0], r[1])
                     out.append(["ok", summary(r[0], r[1], cls.pars, cls.consts)])
             else:
                 out.append(["err", "unknown kind"])
